@@ -45,7 +45,7 @@ def _stale(c, name, n, seed=None, replay=None, corr=("corr_guard",)):
 
 def run(c):
     c.proofs("theories/Properties/C07.v", clean=(c.tier == "thorough"))
-    c.translate(['TieIds'])  # T1: formulas / constants regenerated from the source, tie theorems re-checked
+    c.translate(['TieIds', 'TieGuard'])  # T1: formulas / constants regenerated from the source, tie theorems re-checked
     n = 260 if c.tier == "quick" else 4000
     if c.replay and _is_guard_replay(c.replay):
         _stale(c, "stale-incarnation", 1, replay=c.replay)
